@@ -955,7 +955,7 @@ void c03Big(Ctx& c, long j)
 constexpr long kC03DetLengths = 60;  // length indices per class
 long c03Count(Ctx& c)
 {
-    return kC03DetLengths * CL_COUNT + 24 + (c.thorough() ? 2100000 : 7000);
+    return kC03DetLengths * CL_COUNT + 24 + (c.thorough() ? 2100000 : 40000);
 }
 void c03Run(Ctx& c, long idx)
 {
